@@ -373,8 +373,8 @@ func structuralCheck(m *sipsp.PSIPMsg, buf []byte, start, n int, flags uint8) (c
 		if h == nil || h.Missing() {
 			return bad("typed-without-header", fmt.Sprintf("%s parsed but GetHdr(%s) is missing", what, t))
 		}
-		if h.Val != v {
-			return bad("typed-value", fmt.Sprintf("%s value %v differs from the first %s header's Val %v", what, v, t, h.Val))
+		if !within(v, h.Val) {
+			return bad("typed-value", fmt.Sprintf("%s value %v is not inside the first %s header's Val %v", what, v, t, h.Val))
 		}
 		return "", "", ""
 	}
@@ -450,7 +450,7 @@ func structuralCheck(m *sipsp.PSIPMsg, buf []byte, start, n int, flags uint8) (c
 
 // RunC05 is the monitor for C05.
 func RunC05(r *core.Run) {
-	r.Rule = "case = one message that parses successfully (grammar-generated with repeated / multi-value Contact, P-Asserted-Identity, From headers emphasised, or a mutated corpus message that is still accepted), flags 0..7, any capacities, one-shot or chunked, on a new object or on one used for an abandoned other message and Reset()/Init(); the structural invariant is evaluated on the result: all fields inside [start, returned offset); first-line fields ordered; every stored header's Name at the start of and its Val inside that header's OWN logical line (line extents from an independent splitter), after the colon, trimmed (an empty value is the empty field); every first-of-type shortcut GetHdr(t) (also for headers beyond the array) has its Name at a line start and its Val inside that line; Name/URI/Params/Tag inside V, Tag inside Params, CSeq number before method inside the CSeq value; typed values equal the first header of their type's Val; every stored contact / identity value lies inside a Contact / PAI header value; Body starts after the blank line and ends at the returned offset; RawMsg == buf[start:offset], Buf == buf[:offset]; non-trivial = accepted messages; distinct by hash"
+	r.Rule = "case = one message that parses successfully (grammar-generated with repeated / multi-value Contact, P-Asserted-Identity, From headers emphasised, or a mutated corpus message that is still accepted), flags 0..7, any capacities, one-shot or chunked, on a new object or on one used for an abandoned other message and Reset()/Init(); the structural invariant is evaluated on the result: all fields inside [start, returned offset); first-line fields ordered; every stored header's Name at the start of and its Val inside that header's OWN logical line (line extents from an independent splitter), after the colon, trimmed (an empty value is the empty field); every first-of-type shortcut GetHdr(t) (also for headers beyond the array) has its Name at a line start and its Val inside that line; Name/URI/Params/Tag inside V, Tag inside Params, CSeq number before method inside the CSeq value; typed values lie inside the Val of the first header of their type; every stored contact / identity value lies inside a Contact / PAI header value; Body starts after the blank line and ends at the returned offset; RawMsg == buf[start:offset], Buf == buf[:offset]; non-trivial = accepted messages; distinct by hash"
 	r.Assume = []string{"the independent splitter (ref.HeaderLines) implements: a logical line ends at CRLF / CR / LF not followed by SP or HT"}
 	corpus := loadCorpus()
 	n := r.Pick(1500000, 160000000)
